@@ -10,6 +10,7 @@
 -/
 import KmipModel.Lemmas.FixpointLemmas
 import KmipModel.Props.C18Typed
+import KmipModel.Props.C04
 namespace Kmip.C18
 open Kmip
 
@@ -182,6 +183,89 @@ set_option maxRecDepth 8192 in
 example : specDecode inPad = none ∧ specDecode inBig3 = none ∧ specDecode inTag0Child = none ∧
     specDecode inTrailing = none ∧ specDecode inRoot0 = none ∧ specDecode inBoolFF = none :=
   ⟨rfl, rfl, rfl, rfl, rfl, rfl⟩
+
+/-! ### the two text encodings
+
+The statements of this section are those of `Kmip.C04` (§7 of Props/C04.lean), restated here so that the
+check of C18 builds them, audits their axioms and requires their presence: they are part of what C18
+claims. `xmlRead`/`jsonRead` are the models of the XML/JSON readers on PARSED documents (`XElem`/`JVal`:
+the tokenisers of encoding/xml and encoding/json are not modelled), for any hint function `H` (what a
+typed caller tells the reader about enumeration and mask tags; `noHints` = the generic `ttlv.Value`),
+any registry `T` with the stated well-formedness (proved of the regenerated one: `genTables_wf`,
+`genTables_bounded`) and any RFC 3339 formatter/parser pair satisfying `Rfc3339.Lawful`. -/
+
+open Kmip.Reg Kmip.Lex in
+/-- XML: whatever document the reader accepts, the writer's document for the decoded tree is read back
+    as the very same tree … -/
+theorem xml_fixpoint_full {T : Tables} (hT : T.WF) (hB : T.Bounded) {R : Rfc3339} (hR : R.Lawful)
+    {H : Hints} (e : XElem) (t : XItem) (h : xmlRead T R H e = .ok t) :
+    xmlRead T R H (xmlWrite T R t) = .ok t :=
+  C04.xml_fixpoint_full hT hB hR e t h
+
+open Kmip.Reg Kmip.Lex in
+/-- … so the second re-encoding is the first (the form the property is worded in). -/
+theorem xml_second_reencode_identical {T : Tables} (hT : T.WF) (hB : T.Bounded) {R : Rfc3339}
+    (hR : R.Lawful) {H : Hints} (e : XElem) (t : XItem) (h : xmlRead T R H e = .ok t) :
+    ∃ t', xmlRead T R H (xmlWrite T R t) = .ok t' ∧ xmlWrite T R t' = xmlWrite T R t :=
+  ⟨t, C04.xml_fixpoint_full hT hB hR e t h, rfl⟩
+
+open Kmip.Reg Kmip.Lex in
+/-- JSON: likewise. -/
+theorem json_fixpoint_full {T : Tables} (hT : T.WF) (hB : T.Bounded) {R : Rfc3339} (hR : R.Lawful)
+    {H : Hints} (j : JVal) (t : XItem) (h : jsonRead T R H j = .ok t) :
+    jsonRead T R H (jsonWrite T R t) = .ok t :=
+  C04.json_fixpoint_full hT hB hR j t h
+
+open Kmip.Reg Kmip.Lex in
+theorem json_second_reencode_identical {T : Tables} (hT : T.WF) (hB : T.Bounded) {R : Rfc3339}
+    (hR : R.Lawful) {H : Hints} (j : JVal) (t : XItem) (h : jsonRead T R H j = .ok t) :
+    ∃ t', jsonRead T R H (jsonWrite T R t) = .ok t' ∧ jsonWrite T R t' = jsonWrite T R t :=
+  ⟨t, C04.json_fixpoint_full hT hB hR j t h, rfl⟩
+
+open Kmip.Reg Kmip.Lex in
+/-- through the OTHER text encoding: what the XML reader accepted is read back identically from its
+    JSON encoding … -/
+theorem xml_to_json {T : Tables} (hT : T.WF) (hB : T.Bounded) {R : Rfc3339} (hR : R.Lawful) {H : Hints}
+    (e : XElem) (t : XItem) (h : xmlRead T R H e = .ok t) : jsonRead T R H (jsonWrite T R t) = .ok t :=
+  C04.xml_to_json hT hB hR e t h
+
+open Kmip.Reg Kmip.Lex in
+/-- … and conversely. -/
+theorem json_to_xml {T : Tables} (hT : T.WF) (hB : T.Bounded) {R : Rfc3339} (hR : R.Lawful) {H : Hints}
+    (j : JVal) (t : XItem) (h : jsonRead T R H j = .ok t) : xmlRead T R H (xmlWrite T R t) = .ok t :=
+  C04.json_to_xml hT hB hR j t h
+
+open Kmip.Reg Kmip.Lex in
+/-- instantiated: the registry regenerated from the current Go tree, the generic decoder. -/
+theorem xml_fixpoint_generic {R : Rfc3339} (hR : R.Lawful) (e : XElem) (t : XItem)
+    (h : xmlRead C04.genTables R noHints e = .ok t) :
+    xmlRead C04.genTables R noHints (xmlWrite C04.genTables R t) = .ok t :=
+  C04.xml_fixpoint_generic hR e t h
+
+open Kmip.Reg Kmip.Lex in
+theorem json_fixpoint_generic {R : Rfc3339} (hR : R.Lawful) (j : JVal) (t : XItem)
+    (h : jsonRead C04.genTables R noHints j = .ok t) :
+    jsonRead C04.genTables R noHints (jsonWrite C04.genTables R t) = .ok t :=
+  C04.json_fixpoint_generic hR j t h
+
+/-- the readers before /repo a1c0e70 are refuted: tag text `0x-1` was accepted, re-encoded and read back
+    as another tag (XML and JSON). -/
+theorem old_tag_fixpoint_false :
+    C04.stableXml C04.oldTagTables C04.toyR C04.negTagXml = false ∧
+      C04.stableJson C04.oldTagTables C04.toyR C04.negTagJson = false :=
+  C04.old_tag_fixpoint_false
+
+/-- the readers before /repo df9dac3 are refuted: a zone-offset date of local year 10000 was accepted and
+    its re-encoding rejected; the current reader rejects the input. -/
+theorem old_date_fixpoint_false :
+    C04.stableXml C04.genTables (C04.zoneR false) C04.zoneDateXml = false ∧
+      C04.isErr (Kmip.Lex.xmlRead C04.genTables (C04.zoneR true) Kmip.Lex.noHints C04.zoneDateXml) = true :=
+  C04.old_date_fixpoint_false
+
+/-- non-vacuity: a document in alternative lexical forms (hexadecimal Integer, decimal Enumeration,
+    `TTLV tag=` for a named tag) is ACCEPTED, so the hypothesis of `xml_fixpoint_generic` holds of it. -/
+example : C04.isOk (Kmip.Lex.xmlRead C04.genTables C04.toyR Kmip.Lex.noHints C04.altXml) = true := by
+  decide +kernel
 
 /-! ### the length hypothesis cannot be dropped -/
 
